@@ -846,16 +846,18 @@ class UsersDictionary(utils.IterableMap):
                 self._hostmaskCache[id].remove(hostmask)
                 if not self._hostmaskCache[id]:
                     del self._hostmaskCache[id]
+        # A CacheDict empties itself when full, possibly between the two
+        # insertions of a pair of entries: the counterpart may be missing.
         if name is not None:
-            del self._nameCache[self._nameCache[id]]
+            self._nameCache.pop(self._nameCache[id], None)
             del self._nameCache[id]
         if id is not None:
             if id in self._nameCache:
-                del self._nameCache[self._nameCache[id]]
+                self._nameCache.pop(self._nameCache[id], None)
                 del self._nameCache[id]
             if id in self._hostmaskCache:
                 for hostmask in self._hostmaskCache[id]:
-                    del self._hostmaskCache[hostmask]
+                    self._hostmaskCache.pop(hostmask, None)
                 del self._hostmaskCache[id]
 
     def setUser(self, user, flush=True):
